@@ -264,6 +264,7 @@ def run(prop, tier):
         worlds += [("none", "one", 0, "big"), ("zstd", "two", 1, "big")]
     events, nontrivial, total = [], set(), 0
     case_index = {}
+    confirmed_bad = 0       # crashes / hangs confirmed alone: after a few of them the verdict is reached and the sweep stops
     for wi, (comp, concat, nex, stride) in enumerate(worlds):
         scn, d = make_world(binaries["debug"], base, rng, wi, comp, concat, nex, tier, big=(stride == "big"))
         entry = os.path.join(d, scn["out"])
@@ -306,6 +307,9 @@ def run(prop, tier):
                         with open(p, "wb") as f:
                             f.write(b)
             for profile in profiles:
+                if confirmed_bad >= 6:
+                    C.log("[%s] %d crashes / hangs confirmed: skipping the rest of the sweep" % (prop, confirmed_bad))
+                    break
                 if profile == "release" and tier == "quick":
                     sub = [c_ for i, c_ in enumerate(cases) if i % 3 == 0]
                 else:
@@ -321,14 +325,22 @@ def run(prop, tier):
                         sc["threads"] = 4       # several readers waiting on the same failing decoder
                     scns.append(sc)
                 t1 = time.time()
-                runs = C.run_scenarios(binaries[profile], scns, "I_%s" % prop, timeout=120 + len(scns) // 20, before_round=restore)
+                # (after a dozen crashes / hangs in one batch the verdict is reached: the rest of the batch is skipped)
+                runs = C.run_scenarios(binaries[profile], scns, "I_%s" % prop, timeout=120 + len(scns) // 20, before_round=restore,
+                                       max_failures=12 if prop == "C06" else None, env_extra={"VERIF_SCN_TIMEOUT": "20"})
                 restore()
+                scns = [s for s in scns if runs.get(s["id"], {}).get("status") != "skipped"]
                 # crashes and timeouts are re-run alone in a fresh process before they are attributed
                 again = [s for s in scns if runs.get(s["id"], {"status": "crash:notrun"})["status"] != "ok"]
-                for s in again[:200]:
-                    r1 = C.run_scenarios(binaries[profile], [s], "I_alone", timeout=30, before_round=restore)
+                for s in again[:12]:
+                    if confirmed_bad >= 6:
+                        runs[s["id"]] = {"events": [], "status": "skipped"}
+                        continue
+                    r1 = C.run_scenarios(binaries[profile], [s], "I_alone", timeout=60, before_round=restore, env_extra={"VERIF_SCN_TIMEOUT": "40"})
                     restore()
                     runs[s["id"]] = r1.get(s["id"], {"events": [], "status": "crash:notrun"})
+                    confirmed_bad += runs[s["id"]]["status"] != "ok"
+                scns = [s for s in scns if runs.get(s["id"], {}).get("status") != "skipped"]
                 for s in scns:
                     cc = case_index[s["id"]]
                     ev, diffs = outcome_event(cc, runs.get(s["id"], {"events": [], "status": "crash:notrun"}), pflat, fm, {})
